@@ -137,3 +137,57 @@ func c05HandlerErrors(c *fw.Ctx) {
 		}
 	}
 }
+
+// c05Counters: the value INCR / DECR / INCRBY / DECRBY hand to the handler's Set is the exact
+// sum - also when it is the largest or the smallest 64-bit integer.
+func c05Counters(c *fw.Ctx) {
+	type cc struct {
+		stored string // "" = the key is missing
+		cmd    []string
+		want   string
+	}
+	cases := []cc{
+		{"10", []string{"INCRBY", "k", "5"}, "15"}, {"", []string{"INCR", "k"}, "1"}, {"", []string{"DECR", "k"}, "-1"},
+		{"9223372036854775806", []string{"INCR", "k"}, "9223372036854775807"},
+		{"", []string{"INCRBY", "k", "9223372036854775807"}, "9223372036854775807"},
+		{"0", []string{"INCRBY", "k", "9223372036854775807"}, "9223372036854775807"},
+		{"9223372036854775800", []string{"INCRBY", "k", "7"}, "9223372036854775807"},
+		{"9223372036854775800", []string{"DECRBY", "k", "-7"}, "9223372036854775807"},
+		{"-9223372036854775807", []string{"DECR", "k"}, "-9223372036854775808"},
+		{"0", []string{"INCRBY", "k", "-9223372036854775808"}, "-9223372036854775808"},
+		{"-9223372036854775800", []string{"DECRBY", "k", "8"}, "-9223372036854775808"},
+		{"-1", []string{"INCRBY", "k", "-9223372036854775807"}, "-9223372036854775808"},
+		{"9223372036854775807", []string{"DECRBY", "k", "9223372036854775807"}, "0"},
+		{"-9223372036854775808", []string{"INCRBY", "k", "9223372036854775807"}, "-1"},
+	}
+	for _, x := range cases {
+		if !c.Mine() {
+			continue
+		}
+		c.Eval()
+		c.Nontrivial()
+		r := runDouble(seq.Script{Input: grammar.Encode(x.cmd)}, func(s *redis.Server, d *srv.Double) {
+			d.Result = func(d *srv.Double, call srv.Call) (*redis.Message, error) {
+				if call.Method == "Get" {
+					if x.stored == "" {
+						return redis.NewNilMessage(), nil
+					}
+					return redis.NewBulkMessage(x.stored), nil
+				}
+				return redis.NewOKMessage(), nil
+			}
+		})
+		if cl, _ := crashClause(r.Out); cl != "" {
+			continue
+		}
+		set := ""
+		for _, call := range r.Double.Calls {
+			if call.Method == "Set" && len(call.Args) >= 2 {
+				set = fmt.Sprint(call.Args[1])
+			}
+		}
+		if set != x.want || len(r.Replies) != 1 || !r.Replies[0].Equal(resp.I(atoiSafe(x.want))) {
+			c.Violation("C05|"+x.cmd[0]+"|counter|call-mismatch", fmt.Sprintf("stored %q, %s: the handler calls are %s and the reply %s; expected Set(k, %q) and :%s", x.stored, argsString(x.cmd), callsString(r.Double.Calls), valuesString(r.Replies), x.want, x.want), c05Case{Kind: "handler-error", Shape: "counter"})
+		}
+	}
+}
